@@ -29,7 +29,7 @@ func init() {
 			"C11-R2 facts-before(Shares.Delete / exit descriptor) ⊇ {share≠nil, owner equality}",
 			"C11-R3 processEvent outcome table (shared with C12-R2); switch tables agree",
 			"C11-R4 = C12-R1",
-			"C11-R5 provenance(arg of every basedb.Reader parameter) = the block transaction; storage layer forwards the handle",
+			"C11-R5 provenance(arg of every basedb.Reader parameter) = the block transaction; storage layer forwards the handle; badgerTxn methods read the wrapped txn and reach no *badger.DB method",
 		},
 		Trusted: []string{"herumi BLS", "go-ethereum ABI parsing", "Badger", "go/types + go/ssa"},
 		Assume:  []string{"observation (not armed): sharesStorage updates its in-memory map before the enclosing transaction commits"},
